@@ -691,9 +691,15 @@ func runHistory(t *rapid.T, tamper bool) {
 			simkit.Global.Inc("fault.cap_flush")
 		case "ref":
 			rec(op, "root#%d", o.R%len(roots))
-			tdb.Reference(r.hash, common.Hash{})
-			if r.pinned && !r.durable && r.hash != emptyRoot {
-				r.refs++ // (a reference on a root that is not in the dirty cache is not recorded by the database)
+			times := 1
+			if o.X%3 == 0 {
+				times = 2 // two retained blocks with the same state root
+			}
+			for i := 0; i < times; i++ {
+				tdb.Reference(r.hash, common.Hash{})
+				if r.pinned && !r.durable && r.hash != emptyRoot {
+					r.refs++ // (a reference on a root that is not in the dirty cache is not recorded by the database)
+				}
 			}
 		case "deref":
 			// the trie in use keeps unresolved references into its base root: the node never collects that one
@@ -709,6 +715,9 @@ func runHistory(t *rapid.T, tamper bool) {
 			}
 			if r.refs == 0 {
 				r.pinned = r.durable
+			} else {
+				// still referenced: it must still be served by the database
+				checkRoot(r, tdb, true, "reopen", "op=deref-of-still-referenced-root")
 			}
 			simkit.Global.Inc("fault.dereference")
 		case "reopen":
